@@ -180,6 +180,19 @@ def build_templates(tables, ctx):
         doc = (calendar.timegm((y, mo, d, h, mi, s)) - (tc["off"] or 0)) * 10 ** 9 + ns
         p = o.split("\t")
         if o == "NONE" or p[1] == "PANIC" or (int(p[1]) != doc and t["kind"] != "epoch"):
+            # which fields does the claiming row read?  fewer than the documenting row (it drops the year
+            # and/or the zone that the text carries) = the earlier row is LESS specific: a defect of the
+            # table order (known finding); more = the example only documents its row in isolation
+            if o != "NONE" and p[1] != "PANIC":
+                claimed = set(n for n, g in zip(GROUPS, p[4].split(",")) if g != "-")
+                mine = set(n for n, _, _ in t["groups"] if n in GROUPS)
+                if claimed < mine and (mine - claimed) & {"year", "tz"}:
+                    t["lossy_claim"] = int(p[0])
+                    t["first_row"] = int(p[0])
+                    keep.append(t)
+                    shadowed.append(dict(table_row=t["row"], example=t["raw"].decode("utf-8", "replace")[:100], claimed_by_row=int(p[0]),
+                                         fields_dropped=sorted(mine - claimed), kept_as="known finding class"))
+                    continue
             skip("example_documented_reading_differs_from_pipeline")
             shadowed.append(dict(table_row=t["row"], example=t["raw"].decode("utf-8", "replace")[:100], claimed_by_row=None if o == "NONE" else int(p[0]),
                                  documented_ns=doc, pipeline_ns=None if o == "NONE" or p[1] == "PANIC" else int(p[1])))
@@ -211,7 +224,12 @@ def render(t, F, var):
             if m[0] == "num":
                 s = "%02d" % F["mo"] if m[1] == 2 else "%d" % F["mo"]
             else:
-                s = render_name(MONTHS, F["mo"] - 1, m[1], m[2], var.get("case", m[3]))
+                dot = m[2]
+                if dot and F["mo"] == 5 and "DEC)[\\.]?)" not in t["regex"]:
+                    # CGP_MONTHBb spells may|May|MAY without the optional dot (May is not an abbreviation):
+                    # in such a notation the fifth month is written without the dot
+                    dot = False
+                s = render_name(MONTHS, F["mo"] - 1, m[1], dot, var.get("case", m[3]))
         elif n == "day":
             s = {"space": "%2d", "zero": "%02d", "single": "%d", "two": "%d"}[st["day"]] % F["d"]
         elif n == "hour":
@@ -384,6 +402,22 @@ def run(ctx):
         t1 = calendar.timegm((2099, 12, 30, 0, 0, 0))
         all_days = [time.gmtime(x)[:3] for x in range(t0, t1 + 1, 86400)]
         rng.shuffle(all_days)
+    # ---- corpus first: minimised past failures (corpus/C04/cases.tsv)
+    corpus_n = 0
+    cp = os.path.join(vlib.ROOT, "corpus", "C04", "cases.tsv")
+    if os.path.exists(cp):
+        for k, row in enumerate(l.rstrip("\n") for l in open(cp, encoding="utf-8")):
+            if not row or row.startswith("#"):
+                continue
+            zs, pref, line = row.split("\t", 2)
+            p = os.path.join(d, "corpus_%03d.log" % k)
+            open(p, "wb").write(((line + "\n") * 6).encode("utf-8"))
+            rc, out, err = vlib.run_s4(["--color", "never", "-u", "-d", "%Y%m%dT%H%M%S%.9f%z", "--tz-offset=" + zs, p], timeout=120, env={"TZ": "UTC"})
+            corpus_n += 1
+            want = ((pref + ":" + line + "\n") * 6).encode("utf-8")
+            if out != want:
+                ctx.failure(dict(line=line, tz_offset=zs, corpus="corpus/C04/cases.tsv:%d" % (k + 1), file_lines=[line] * 6), pref,
+                            (out.decode("utf-8", "replace").split("\n")[0][:120] or "rc=%d %s" % (rc, err.decode("utf-8", "replace")[-200:])), [])
     # ---- generate files: one notation (template) per file
     files = []
     day_i = 0
@@ -486,8 +520,8 @@ def run(ctx):
                 cls = []
                 if t["kind"] == "epoch" and f["fb"] != 0:
                     cls.append("epoch_timestamp_with_nonzero_tz_offset")
-                if f["maydot"]:
-                    cls.append("month_may_with_dot")
+                if t.get("lossy_claim") is not None:
+                    cls.append("documented_example_claimed_by_earlier_less_specific_row")
                 if ends_line(t):
                     cls.append("timestamp_at_end_of_line")
                 if len(f.get("first_rows", ())) > 1:
@@ -573,7 +607,7 @@ def run(ctx):
         evaluations=n_lines, distinct_nontrivial=len(distinct),
         rule="one generated line per case = a documented example line (`_test_cases` of a DTPD! entry) with its captured fields replaced: date (edge list incl. leap days, year/month boundaries, 1970-01-02, 2099-12-30; uniform 1970..2099; thorough: every day once), time (00:00:00, 23:59:59, noon, random), numeric offsets -12:00..+14:00 in 15-minute steps, every abbreviation of the frozen reference in the cases the regex lists, 1..9 fraction digits where the regex allows, lower/Title/UPPER month and weekday names, day/hour padding as in the example; files of one notation each, fallback zones rotated; distinct = distinct line texts",
         samples=[dict(line=c["line"].decode("utf-8", "replace"), tz_offset=f["zone"], expected=fmt_utc(c["exp"])) for f in files[:3] for c in f["cases"][:1]],
-        templates=len(tpls), table_rows_with_a_template=rows_covered, table_rows=len(tables["rows"]),
+        corpus_cases=corpus_n, templates=len(tpls), table_rows_with_a_template=rows_covered, table_rows=len(tables["rows"]),
         documented_examples=sum(len(r["tests"]) for r in tables["rows"]), templates_skipped=skipped,
         files=len(files), kind_histogram=hist_kind, fallback_zone_histogram=hist_zone,
         fraction_digits_histogram={str(k): v for k, v in sorted(hist_frac.items())}, zone_spelling_histogram=hist_tz,
